@@ -40,9 +40,9 @@ class TlcResult:
 _STATS = re.compile(r'^(\d[\d,]*) states generated, (\d[\d,]*) distinct states found')
 _DEPTH = re.compile(r'^The depth of the complete state graph search is (\d+)')
 _COV = re.compile(r'^<(\w+) line \d+, col \d+ to line \d+, col \d+ of module (\w+)(?: \((\d+) (\d+) (\d+) (\d+)\))?>: (\d+):(\d+)')
-_WRAPPERS = {'Next', 'NextP', 'GenNext', 'TraceNext', 'Step'}
+_WRAPPERS = {'Next', 'NextP', 'GenNext', 'TraceNext', 'Step', 'GraphNext', 'GNext', 'GenGNext'}
 _CALL = re.compile(r'\b([A-Z][A-Za-z0-9]*)\(')
-_NOT_ACTIONS = {'Defenses', 'TypeOfH', 'PolicyName', 'NeedsAutoName', 'ToString', 'DOMAIN', 'Range', 'SeqsFrom1', 'Len', 'Present', 'Cardinality'}
+_NOT_ACTIONS = {'Defenses', 'TypeOfH', 'PolicyName', 'NeedsAutoName', 'ToString', 'DOMAIN', 'Range', 'SeqsFrom1', 'Len', 'Present', 'Cardinality', 'On', 'NodeHs', 'AtkHs', 'ModelStep'}
 _SRC = {}
 
 
@@ -62,7 +62,10 @@ def _action_name(name, module, pos):
     lines = list(lines)
     lines[-1] = lines[-1][:c2]
     lines[0] = lines[0][c1 - 1:] if len(lines) > 1 else lines[0][c1 - 1:]
-    calls = [c for c in _CALL.findall(' '.join(lines)) if c not in _NOT_ACTIONS]
+    text = re.sub(r'"[^"]*"', '', ' '.join(lines))
+    calls = [c for c in _CALL.findall(text) if c not in _NOT_ACTIONS]
+    if not calls:
+        calls = [c for c in re.findall(r'\b([A-Z][A-Za-z0-9]*)\b', text) if c not in _NOT_ACTIONS]
     return calls[-1] if calls else name
 _SIMSTAT = re.compile(r'(\d[\d,]*) states checked')
 _PROGRESS = re.compile(r'^Progress\(\d+\).*?: ([\d,]+) states generated.*?([\d,]+) distinct states found')
@@ -72,8 +75,15 @@ def _int(s):
     return int(s.replace(',', ''))
 
 
+def rundir():
+    """Per-run scratch root (so that concurrent runs never clean up each other's files)."""
+    d = os.environ.get('VERIF_RUNDIR') or os.path.join(WORK, 'adhoc-%d' % os.getpid())
+    os.makedirs(d, exist_ok=True)
+    return d
+
+
 def scratch(prefix='run'):
-    d = os.path.join(WORK, '%s-%s' % (prefix, uuid.uuid4().hex[:10]))
+    d = os.path.join(rundir(), '%s-%s' % (prefix, uuid.uuid4().hex[:10]))
     os.makedirs(d, exist_ok=True)
     return d
 
